@@ -162,6 +162,10 @@ def run(tier):
                 rep.finding("read", "literal %r read as %s, expected %s" % (docs[i][:60], a[:80], e), {"kind": "read", "config": cfg, "input_hex": C.hexs(docs[i]), "expected": e, "observed": a})
         for i in diffs[:5]:
             rep.broken_obligation("correspondence/read", "model %r vs code %r on %r" % (model[i], impl[i], docs[i][:80]), False)
+        # the literal ends where `length` says, whatever digits, point or exponent happen to follow in memory
+        tdocs = docs[:: (1 if tier == "thorough" else 4)]
+        if U.tail_independence(rep, cfg, tdocs, [b"0123456789012345678901234567890", b"e5 ", b".000000000000000001e3", b"5e-3\x00"], base=None):
+            found = True
         rep.note_cases(len(lines) + len(rl), set(C.sha(s)[:16] for s in lits), sample={"literal": lits[10], "bits": want[10]})
     # two literals denoting the same real number read as the same double
     same = [("1e2", "100.0"), ("0.5", "5e-1"), ("0.5", "0.50000"), ("1e23", "100000000000000000000000.0"), ("12.5e1", "125.0"), ("-0.0", "-0e5")]
